@@ -1,5 +1,253 @@
-import IgrisModel.C19.Model
+import IgrisModel.C19.Spec
 namespace Igris.C19
 open Igris.Proto
+set_option linter.unusedSimpArgs false
+set_option linter.unusedVariables false
+
+/-! ## generic list facts -/
+
+theorem length_dropWhile_le (p : Byte → Bool) (l : Str) : (l.dropWhile p).length ≤ l.length := by
+  induction l with
+  | nil => simp
+  | cons c cs ih => simp only [List.dropWhile_cons]; split <;> simp <;> omega
+
+theorem between_dropWhile (p : Byte → Bool) (s : Str) : between s (s.dropWhile p) = s.takeWhile p := by
+  unfold between
+  have h := @List.takeWhile_append_dropWhile _ p s
+  have hl : (s.takeWhile p).length + (s.dropWhile p).length = s.length := by
+    rw [← List.length_append, h]
+  conv => lhs; arg 2; rw [← h]
+  exact List.take_left' (by omega)
+
+/-- a non-empty `dropWhile p` starts with a character not satisfying `p` -/
+theorem dropWhile_cons_head (p : Byte → Bool) (s : Str) (c : Byte) (cs : Str)
+    (h : s.dropWhile p = c :: cs) : p c = false := by
+  have := List.head_dropWhile_not p (l := s) (by rw [h]; simp)
+  simpa [h] using this
+
+theorem dropWhile_dropWhile (p : Byte → Bool) (s : Str) : (s.dropWhile p).dropWhile p = s.dropWhile p := by
+  induction s with
+  | nil => rfl
+  | cons c cs ih =>
+    simp only [List.dropWhile_cons]
+    split
+    · exact ih
+    · rename_i h; simp [List.dropWhile_cons, h]
+
+/-! ## runs -/
+
+theorem runsGo_acc (d : Byte → Bool) (s acc : Str) :
+    runsGo d acc s =
+      if (acc ++ s.takeWhile (fun c => !d c)).isEmpty then runsGo d [] (s.dropWhile (fun c => !d c))
+      else (acc ++ s.takeWhile (fun c => !d c)) :: runsGo d [] (s.dropWhile (fun c => !d c)) := by
+  induction s generalizing acc with
+  | nil => cases acc <;> simp [runsGo]
+  | cons c cs ih =>
+    by_cases hc : d c
+    · cases acc <;> simp [runsGo, hc]
+    · rw [runsGo]; simp only [hc, Bool.false_eq_true, ↓reduceIte]
+      rw [ih]
+      simp [List.takeWhile_cons, List.dropWhile_cons, hc]
+
+theorem runs_dropWhile (d : Byte → Bool) (s : Str) : runs d s = runs d (s.dropWhile d) := by
+  induction s with
+  | nil => rfl
+  | cons c cs ih =>
+    by_cases hc : d c
+    · simp only [List.dropWhile_cons, hc, ↓reduceIte]
+      rw [← ih]; simp [runs, runsGo, hc]
+    · simp [List.dropWhile_cons, hc]
+
+theorem runs_nil (d : Byte → Bool) : runs d [] = [] := rfl
+
+/-- unfolding of `runs` at a character that is not a delimiter -/
+theorem runs_cons_token (d : Byte → Bool) (c : Byte) (cs : Str) (hc : d c = false) :
+    runs d (c :: cs) =
+      (c :: cs).takeWhile (fun c => !d c) :: runs d ((c :: cs).dropWhile (fun c => !d c)) := by
+  unfold runs
+  rw [runsGo_acc]
+  simp [List.takeWhile_cons, hc]
+
+/-- the equation the splitting loops follow -/
+theorem runs_unfold (d : Byte → Bool) (s : Str) :
+    runs d s =
+      match s.dropWhile d with
+      | [] => []
+      | c :: cs => (c :: cs).takeWhile (fun c => !d c) :: runs d ((c :: cs).dropWhile (fun c => !d c)) := by
+  rw [runs_dropWhile]
+  split
+  · rename_i h; rw [h]; rfl
+  · rename_i c cs h
+    rw [h]; exact runs_cons_token d c cs (dropWhile_cons_head d s c cs h)
+
+
+theorem runsGo_congr (d d' : Byte → Bool) (s acc : Str) (h : ∀ c ∈ s, d c = d' c) :
+    runsGo d acc s = runsGo d' acc s := by
+  induction s generalizing acc with
+  | nil => rfl
+  | cons c cs ih =>
+    have hc := h c (by simp)
+    have hcs : ∀ x ∈ cs, d x = d' x := fun x hx => h x (by simp [hx])
+    simp only [runsGo, hc, ih _ hcs]
+
+theorem runs_congr (d d' : Byte → Bool) (s : Str) (h : ∀ c ∈ s, d c = d' c) : runs d s = runs d' s :=
+  runsGo_congr d d' s [] h
+
+/-! ## the three "skip delimiters / scan token" loops -/
+
+theorem bne_fun (delim : Byte) : (fun c : Byte => c != delim) = (fun c => !(c == delim)) := rfl
+
+/-- after a non-delimiter head, scanning the token consumes at least that head -/
+theorem length_scan_lt (d : Byte → Bool) (c : Byte) (cs : Str) (hc : d c = false) :
+    ((c :: cs).dropWhile (fun c => !d c)).length < (c :: cs).length := by
+  simp only [List.dropWhile_cons, hc, Bool.not_false, ↓reduceIte, List.length_cons]
+  have := length_dropWhile_le (fun c => !d c) cs
+  omega
+
+theorem splitCharLoop_eq (delim : Byte) (f : Nat) (ptr : Cur) (out : List Str) (h : ptr.length < f) :
+    splitCharLoop delim f ptr out = some (out ++ runs (· == delim) ptr) := by
+  induction f generalizing ptr out with
+  | zero => omega
+  | succ f ih =>
+    unfold splitCharLoop
+    simp only
+    rw [runs_unfold]
+    cases hp : ptr.dropWhile (· == delim) with
+    | nil => simp
+    | cons c cs =>
+      have hc := dropWhile_cons_head _ ptr c cs hp
+      have hl := length_dropWhile_le (· == delim) ptr
+      rw [hp] at hl
+      have hlt := length_scan_lt (· == delim) c cs hc
+      simp only [List.isEmpty_cons, Bool.false_eq_true, ↓reduceIte]
+      rw [bne_fun, ih _ _ (by simp only [List.length_cons] at *; omega), between_dropWhile]
+      simp [List.append_assoc]
+
+theorem splitDelimsLoop_eq (delims : Str) (f : Nat) (ptr : Cur) (out : List Str) (h : ptr.length < f) :
+    splitDelimsLoop delims f ptr out = some (out ++ runs (strchrHit delims) ptr) := by
+  induction f generalizing ptr out with
+  | zero => omega
+  | succ f ih =>
+    unfold splitDelimsLoop
+    simp only
+    rw [runs_unfold]
+    cases hp : ptr.dropWhile (strchrHit delims) with
+    | nil => simp
+    | cons c cs =>
+      have hc := dropWhile_cons_head _ ptr c cs hp
+      have hl := length_dropWhile_le (strchrHit delims) ptr
+      rw [hp] at hl
+      have hlt := length_scan_lt (strchrHit delims) c cs hc
+      simp only [List.isEmpty_cons, Bool.false_eq_true, ↓reduceIte]
+      rw [between_dropWhile]
+      split
+      · rename_i he
+        have : (c :: cs).dropWhile (fun c => !strchrHit delims c) = [] := by simpa using he
+        rw [this, runs_nil]
+      · rw [ih _ _ (by simp only [List.length_cons] at *; omega)]
+        simp [List.append_assoc]
+
+
+/-! ## join -/
+
+theorem intercalate_cons_cons (sep t u : Str) (rest : List Str) :
+    List.intercalate sep (t :: u :: rest) = t ++ sep ++ List.intercalate sep (u :: rest) := by
+  simp [List.intercalate, List.intersperse_cons_cons, List.append_assoc]
+
+theorem intercalate_single (sep t : Str) : List.intercalate sep [t] = t := by
+  simp [List.intercalate]
+
+theorem joinLoop_eq (delim : Str) (vec : List Str) (ret : Str) :
+    joinLoop delim vec ret = ret ++ List.intercalate delim vec := by
+  induction vec generalizing ret with
+  | nil => simp [joinLoop, List.intercalate]
+  | cons t rest ih =>
+    cases rest with
+    | nil => simp [joinLoop, intercalate_single]
+    | cons u rest =>
+      rw [joinLoop, ih, intercalate_cons_cons]
+      simp [List.append_assoc]
+      intro h; cases h
+
+/-! ## tokens of `runs`, and the inverse laws -/
+
+theorem runsGo_tokens (d : Byte → Bool) (s acc : Str) (hacc : ∀ c ∈ acc, d c = false) :
+    ∀ t ∈ runsGo d acc s, t ≠ [] ∧ ∀ c ∈ t, d c = false := by
+  induction s generalizing acc with
+  | nil =>
+    intro t ht
+    cases acc with
+    | nil => simp [runsGo] at ht
+    | cons a as => simp [runsGo] at ht; subst ht; exact ⟨by simp, hacc⟩
+  | cons c cs ih =>
+    intro t ht
+    by_cases hc : d c
+    · cases acc with
+      | nil =>
+        simp only [runsGo, hc, ↓reduceIte, List.isEmpty_nil] at ht
+        exact ih [] (by simp) t ht
+      | cons a as =>
+        simp only [runsGo, hc, ↓reduceIte, List.isEmpty_cons, Bool.false_eq_true, List.mem_cons] at ht
+        rcases ht with ht | ht
+        · subst ht; exact ⟨by simp, hacc⟩
+        · exact ih [] (by simp) t ht
+    · simp only [runsGo, hc, Bool.false_eq_true, ↓reduceIte] at ht
+      refine ih (acc ++ [c]) ?_ t ht
+      intro x hx
+      simp only [List.mem_append, List.mem_singleton] at hx
+      rcases hx with hx | hx
+      · exact hacc x hx
+      · subst hx; simpa using hc
+
+theorem runsGo_flatten (d : Byte → Bool) (s acc : Str) :
+    (runsGo d acc s).flatten = acc ++ s.filter (fun c => !d c) := by
+  induction s generalizing acc with
+  | nil => cases acc <;> simp [runsGo]
+  | cons c cs ih =>
+    by_cases hc : d c
+    · cases acc <;> simp [runsGo, hc, ih]
+    · simp [runsGo, hc, ih]
+
+theorem runsGo_append_token (d : Byte → Bool) (t rest acc : Str) (hd : ∀ c ∈ t, d c = false) :
+    runsGo d acc (t ++ rest) = runsGo d (acc ++ t) rest := by
+  induction t generalizing acc with
+  | nil => simp
+  | cons c cs ih =>
+    have hc : d c = false := hd c (by simp)
+    simp only [List.cons_append, runsGo, hc, Bool.false_eq_true, ↓reduceIte]
+    rw [ih _ (fun x hx => hd x (by simp [hx]))]
+    simp [List.append_assoc]
+
+/-- a non-empty delimiter-free token followed by the end or by a delimiter -/
+theorem runs_token_append (d : Byte → Bool) (t rest : Str) (ht : t ≠ []) (hd : ∀ c ∈ t, d c = false)
+    (hr : rest = [] ∨ ∃ c r, rest = c :: r ∧ d c = true) :
+    runs d (t ++ rest) = t :: runs d rest := by
+  unfold runs
+  rw [runsGo_append_token d t rest [] hd]
+  cases t with
+  | nil => exact absurd rfl ht
+  | cons a as =>
+    rcases hr with hr | ⟨c, r, hr, hc⟩
+    · subst hr; simp [runsGo]
+    · subst hr; simp [runsGo, hc]
+
+theorem runs_split_join (d : Byte → Bool) (delim : Byte) (hdel : d delim = true) (toks : List Str)
+    (h : ∀ t ∈ toks, t ≠ [] ∧ ∀ c ∈ t, d c = false) :
+    runs d (List.intercalate [delim] toks) = toks := by
+  induction toks with
+  | nil => simp [List.intercalate, runs, runsGo]
+  | cons t rest ih =>
+    have ⟨ht, hd⟩ := h t (by simp)
+    cases rest with
+    | nil =>
+      rw [intercalate_single]
+      have := runs_token_append d t [] ht hd (Or.inl rfl)
+      simpa [runs_nil] using this
+    | cons u rest =>
+      rw [intercalate_cons_cons, List.append_assoc, List.singleton_append,
+        runs_token_append d t _ ht hd (Or.inr ⟨delim, _, rfl, hdel⟩)]
+      have : runs d (delim :: List.intercalate [delim] (u :: rest)) = runs d (List.intercalate [delim] (u :: rest)) := by
+        simp [runs, runsGo, hdel]
+      rw [this, ih (fun x hx => h x (by simp [hx]))]
 
 end Igris.C19
